@@ -10,3 +10,5 @@ import Proofs.C14
 #print axioms C14.geoMean_spec
 #print axioms C14.residue_warning_exact
 #print axioms C14.cell_sampleWarnings
+#print axioms C14.cells_are_groupBy_raw
+#print axioms C14.rows_sorted_by_key_less
